@@ -11,13 +11,17 @@ SPEC = {
             "for EVERY storage call index x {fail before its effect, fail after it} (single faults) and for sampled ordered "
             "pairs (quick n/2 pairs, thorough 4n); after every API call: result, contents through a new reader of the running "
             "index, contents through Index::open_with_storage on the same storage; finally a healthy writer commits and both "
-            "views are compared. Coq evaluates the executable specification (possibility-set tracking) and checks every "
-            "faulted commit's outcome against the commit-under-faults model. A run is non-trivial when a fault fired; "
+            "views are compared. Coq decides (a) correspondence: for at most one fault the run is a history of the whole-history "
+            "fault model C03/History.v (corr_h: the set of model states explaining the observations so far is carried along, "
+            "every candidate fault assignment of the faulted call's kind is tried, final running/reopened contents equal the "
+            "model's); for two faults every faulted commit's outcome is one the commit-under-faults model produces; (b) the "
+            "executable specification (possibility-set tracking). A run is non-trivial when a fault fired; "
             "distinct = distinct (history, fault plan)",
     "trusted_base": [
         "the fault-injecting storage wrapper harness/src/faulty.rs (fails a call before or after delegating to InMemoryStorage)",
-        "C03/Model.v commit_f is a hand transcription of the ?/if-let-Err structure of IndexWriter::commit; add/delete/"
-        "rollback/compact under faults are covered by the executable specification on real runs only",
+        "C03/Model.v commit_f and C03/Others.v add_f / rollback_f / compact_f are hand transcriptions of the ?/if-let-Err "
+        "structure of IndexWriter::commit / add_document / delete_documents / rollback and Index::compact; C03/History.v "
+        "composes them; the tie checks on every run that real faulted runs are histories of that model",
     ],
     "assumptions": ["one live writer handle at a time; in-memory storage (the public Storage trait is the fault surface)"],
 }
@@ -35,11 +39,15 @@ MANIFEST_ENTRY = {
             "stored manifest never refers to missing files; C03_add_fault_safe / C03_rollback_fault_safe / "
             "C03_compact_faults_openable / C03_compact_ok_complete - the same for add/delete, rollback and compaction (small "
             "models of their ?-structure; compaction may leave memory and storage on different but content-equal segment lists, "
-            "both referring to existing files); C03_unfixed_* show the two defects of the code as found (repaired). "
-            "All of add/delete/commit/rollback/compaction under every single fault position and sampled double faults are decided "
-            "on the real implementation by the executable specification C03.Model.spec evaluated in Coq.",
-    "note": "Trusted: Coq kernel; the commit-path model; the fault-injecting wrapper. Partial: only commit has a Coq model under "
-            "faults; the other calls are covered by spec-checked exhaustive single-fault enumeration on real runs (fault_enumeration "
-            "in spirit) - stated in DESIGN.md C03.",
-    "technique": "Coq proof by exhaustive finite sweep over a commit-under-faults model + Coq-evaluated specification on exhaustive single-fault enumeration of real runs",
+            "both referring to existing files); whole histories - C03_history_single_fault: every history of the composed model "
+            "C03/History.v (any sequence of writer/add/delete/commit/rollback/drop/compact/reopen calls) in which at most one "
+            "storage call fails, whichever and wherever, is accepted by the specification C03.Model.spec written from the "
+            "statement (error => contents unchanged for new readers and after reopen, operations retryable; success => effects "
+            "fully applied; final healthy commit applies the outstanding operations), with C03_call_refines_spec as its one-call "
+            "step; C03_unfixed_* show the two defects of the code as found (repaired). The tie evaluates model membership and "
+            "the specification on real runs with every single fault position and sampled double faults.",
+    "note": "Trusted: Coq kernel; the commit-path model; the fault-injecting wrapper. Partial: the models speak "
+            "of storage-touching steps, not of individual Storage calls (several calls map to one step); double faults are "
+            "proved only for the second sentence (openable, no missing files) and only for commit and compaction.",
+    "technique": "Coq proofs: exhaustive finite sweeps over per-call fault models lifted to all assignments, and a whole-history theorem (composed fault model refines the possibility-set specification); correspondence = real runs under exhaustive single-fault enumeration accepted by the model, evaluated in Coq",
 }
